@@ -462,7 +462,7 @@ func runTarE2ECase(c tarCase) []Step {
 	}
 	path, layer, err := bc.BuildLayer(ctx)
 	if err != nil {
-		return []Step{{Line: "tar.digest", Go: "build-error", Desc: desc + ": " + err.Error(), Mode: "oracle-go", GoSpec: "pass", NoImpl: true, Tags: []string{"e2e:build-error"}, Trivial: true}}
+		return []Step{{Line: "tar.digest", Go: "build-error", Desc: desc + ": " + err.Error(), Mode: "oracle-go", GoSpec: "pass", NoImpl: true, Tags: []string{"e2e:build-error", "e2e:err:" + tarErrClass(err)}, Trivial: true}}
 	}
 	file, err := os.ReadFile(path)
 	if err != nil {
@@ -843,4 +843,19 @@ func init() {
 			"the same package with the link named z-link: faithful")
 		return true
 	}
+}
+
+// tarErrClass: coarse reason of a failed end-to-end build (generated package sets may conflict; those
+// cases belong to C07 and only count here as skipped)
+func tarErrClass(err error) string {
+	msg := err.Error()
+	for _, k := range []string{"conflicting file", "FileConflict", "checksum", "not in indexes", "solving", "installing apk packages", "mutate", "busybox"} {
+		if strings.Contains(msg, k) {
+			return strings.ReplaceAll(k, " ", "-")
+		}
+	}
+	if len(msg) > 40 {
+		msg = msg[len(msg)-40:]
+	}
+	return strings.ReplaceAll(msg, " ", "-")
 }
